@@ -177,16 +177,16 @@ pub fn run_c03_scanners(chk: &Check, tier: Tier) {
     let rep = Report { repr: true, ..Default::default() };
     for &c in &quick_channels(tier) {
         let sys = c08_system("C03", c, rep, &V3);
-        let out = xs::explore(&sys, &Limits { restoration_check: false, ..Default::default() });
+        let out = xs::explore(&sys, &Limits::default());
         engine::record(chk, &sys, &out, None);
         let sys = c11_system("C03", c, rep, &V3, false);
-        let out = xs::explore(&sys, &Limits { restoration_check: false, ..Default::default() });
+        let out = xs::explore(&sys, &Limits::default());
         engine::record(chk, &sys, &out, None);
         #[cfg(feature = "polling")]
         {
             let mut sys = PollSys::new("C03", c, 2, 1, &V3, false, PReport { repr: true, ..Default::default() });
             sys.noncontrib = noncontrib_small::<PollingParameterNumberMessageScanner>(c);
-            let out = xs::explore(&sys, &Limits { restoration_check: false, ..Default::default() });
+            let out = xs::explore(&sys, &Limits::default());
             engine::record(chk, &sys, &out, None);
         }
     }
